@@ -35,6 +35,7 @@ func init() {
 // generic deviation-bounded explorer over vsched executions
 
 type exploreStats struct {
+	Nondet      string
 	Execs       int64
 	Points      int64
 	Pruned      int64
@@ -78,7 +79,12 @@ func explore(opt vsched.Options, body func(), mode string, db, eb int, capExecs 
 			st.MaxPoints = len(r.Points)
 		}
 		if r.Diverged != "" {
-			ev.Fatal("schedmc: %s", r.Diverged)
+			// the same choice prefix led somewhere else: the code under test keeps state between
+			// executions (e.g. a package-level cache), so executions are not independent. That is
+			// not a verdict about the property; give up on this configuration and say so.
+			st.Nondet = r.Diverged
+			st.Capped = true
+			return
 		}
 		taken := make([]int, len(r.Points))
 		for i, p := range r.Points {
@@ -319,6 +325,7 @@ type schedResult struct {
 	Viol      []ev.Violation   `json:"viol"`
 	Multiset  string           `json:"multiset"`
 	MaxPoints int              `json:"max_points"`
+	Nondet    string           `json:"nondet,omitempty"`
 }
 
 func runSchedCfg(root string, c schedCfg, capExecs int64) schedResult {
@@ -385,7 +392,7 @@ func runSchedCfg(root string, c schedCfg, capExecs int64) schedResult {
 		}
 		res.Digests[out]++
 	})
-	res.Execs, res.Points, res.Pruned, res.States, res.Capped, res.MaxPoints = st.Execs, st.Points, st.Pruned, st.StatesSeen, st.Capped, st.MaxPoints
+	res.Execs, res.Points, res.Pruned, res.States, res.Capped, res.MaxPoints, res.Nondet = st.Execs, st.Points, st.Pruned, st.StatesSeen, st.Capped, st.MaxPoints, st.Nondet
 	// schedule independence within this configuration
 	if c.Prop == "C04" {
 		var ds []string
@@ -602,13 +609,29 @@ func c04LongLists(run *ev.Run) int64 {
 		}
 		for _, i := range positions {
 			old, _ := os.ReadFile(paths[i])
-			os.WriteFile(paths[i], append(append([]byte{}, old...), '!'), 0o644)
-			d, _ := hashFn(l)
-			os.WriteFile(paths[i], old, 0o644)
-			comparisons++
-			if d == d0 {
-				run.Report(ev.Violation{Key: fmt.Sprintf("long-change %s n=%d i=%d", label, n, i), Class: "content-change-keeps-digest",
-					What: fmt.Sprintf("%s, list of %d files: changing the content of file %d leaves the digest unchanged", label, n, i), Case: map[string]any{"n": n, "i": i, "mode": label}})
+			info, _ := os.Stat(paths[i])
+			for variant := 0; variant < 2; variant++ {
+				if variant == 0 {
+					os.WriteFile(paths[i], append(append([]byte{}, old...), '!'), 0o644)
+				} else {
+					// same length, same modification time, same mode: only the bytes differ (cp -p, touch -r, a coarse clock)
+					flipped := append([]byte{}, old...)
+					flipped[len(flipped)-1] ^= 1
+					os.WriteFile(paths[i], flipped, 0o644)
+					os.Chtimes(paths[i], info.ModTime(), info.ModTime())
+				}
+				d, _ := hashFn(l)
+				os.WriteFile(paths[i], old, 0o644)
+				os.Chtimes(paths[i], info.ModTime(), info.ModTime())
+				comparisons++
+				if d == d0 {
+					what := "changing the content"
+					if variant == 1 {
+						what = "changing the content while keeping size, mode and modification time"
+					}
+					run.Report(ev.Violation{Key: fmt.Sprintf("long-change %s n=%d i=%d v=%d", label, n, i, variant), Class: "content-change-keeps-digest",
+						What: fmt.Sprintf("%s, list of %d files: %s of file %d leaves the digest unchanged", label, n, what, i), Case: map[string]any{"n": n, "i": i, "mode": label}})
+				}
 			}
 		}
 	}
@@ -694,7 +717,7 @@ func schedCheck(prop, tier string) int {
 	}
 	nsh := (len(cfgs) + per - 1) / per
 	var mu sync.Mutex
-	var execs, points, pruned, states int64
+	var execs, points, pruned, states, abandoned int64
 	outcomes := map[string]int64{}
 	byMultiset := map[string]map[string]string{} // multiset -> digest -> config that produced it
 	capped := false
@@ -733,6 +756,9 @@ func schedCheck(prop, tier string) int {
 			states += r.States
 			if r.Capped {
 				capped = true
+			}
+			if r.Nondet != "" {
+				abandoned++
 			}
 			for d, n := range r.Digests {
 				key := d
@@ -799,6 +825,9 @@ func schedCheck(prop, tier string) int {
 	run.Set("schedules_explored", execs)
 	run.Set("schedules_pruned_by_state_key", pruned)
 	run.Set("configurations", len(cfgs))
+	if abandoned > 0 {
+		run.Set("configurations_abandoned_because_executions_are_not_independent", abandoned)
+	}
 	run.Set("outcomes", outcomes)
 	run.Set("exhaustive", !capped)
 	run.Set("rule", "each configuration (list of entries x NumCPU) is executed on the mechanically rewritten hash package under a controlled scheduler in two modes: (pruned) EVERY interleaving and every injected-fault combination, with state-key pruning of already visited scheduler states; (delay) without pruning, every choice sequence with <= 2 (1 for the longest lists; thorough 3/2) non-default scheduling choices and <= 1 (thorough 2) injected faults; states = configurations + distinct scheduler states visited in pruned mode; transitions = choice points passed; each execution is a distinct choice sequence (distinct_nontrivial = complete, unpruned executions)")
